@@ -117,7 +117,10 @@ func openBadger(dir string) (store.Store, error) {
 
 // downgrade rewrites the on-disk format version marker of a closed badger
 // directory (0 = no marker) and plants a legacy nonce record without TTL.
-func downgrade(dir string, version int) error {
+// downgrade rewrites the format version marker of a closed database and adds what a database of that age
+// holds and the current format no longer has: old-style nonce records (no expiry), one for "legacy-identity"
+// plus `fill` more for other identities with node-id-sized names (a pool that has served that many agents).
+func downgrade(dir string, version int, fill int) error {
 	opts := badgerdb.DefaultOptions(dir)
 	opts.Logger = nil
 	db, err := badgerdb.Open(opts)
@@ -143,6 +146,11 @@ func downgrade(dir string, version int) error {
 		var buf bytes.Buffer
 		legacy := int64(12345)
 		gob.NewEncoder(&buf).Encode(&legacy)
+		for i := 0; i < fill; i++ {
+			if err := txn.Set([]byte(fmt.Sprintf("vip:nonce:%0128x", 0xabc000+i)), buf.Bytes()); err != nil {
+				return err
+			}
+		}
 		return txn.Set([]byte("vip:nonce:legacy-identity"), buf.Bytes())
 	})
 }
@@ -377,7 +385,7 @@ func (w *World) storeOp(op J) (J, error) {
 		if err := s.Close(); err != nil {
 			return nil, fmt.Errorf("close: %v", err)
 		}
-		if err := downgrade(w.dir, int(num(op, "v"))); err != nil {
+		if err := downgrade(w.dir, int(num(op, "v")), int(num(op, "fill"))); err != nil {
 			return nil, fmt.Errorf("downgrade: %v", err)
 		}
 		if err := w.openStore(false); err != nil {
